@@ -1,6 +1,9 @@
 import UrcuVerif.Src.StackLocal
 import UrcuVerif.Src.StackRefine
 import UrcuVerif.Src.StackWfsPop
+import UrcuVerif.Src.StackLfsRcu
+import UrcuVerif.Src.StackWfq
+import UrcuVerif.Src.StackConverse
 /-!
 # Source refinement, stacks: generated IR of `wfstack.h` / `lfstack.h` ⊑ L2 (`Wfs`, `Lfs`), thread-locally
 
@@ -237,6 +240,36 @@ example : ∃ out, exec 0 Gen.Src.«_cds_wfs_empty» (envOf [("u_stack", .ptr (.
   sexec [Gen.Src.«_cds_wfs_empty», Gen.Src.«___cds_wfs_end», envOf, List.lookup]
   decide
 
+-- converse direction (every local L2 path of the call is a prefix of a source trace)
+theorem _cds_wfs_push_converse (fuel : Nat) (env : Env) (s n : Nat) (cfg : Int) (r : Wfs.Ret)
+    (hs : env.vars "u_stack" = some (.ptr (.obj s))) (hn : env.vars "node" = some (.ptr (.obj n)))
+    (hcfg : env.priv (.glob "CONFIG_RCU_EMIT_LEGACY_MB") = some (.int cfg))
+    (hnode : Wfs.isNode n) (labels : List LLabel) (ls' : LState)
+    (hrun : lrun ⟨.pushX n, r⟩ labels = some ls') (hlen : labels.length ≤ 2) :
+    ∃ inp out, (∀ v ∈ inp, (dec v).isSome) ∧ exec fuel Gen.Src.«_cds_wfs_push» env inp = .ok out ∧
+      labels <+: out.events.flatMap (absEv .push s) :=
+  push_converse fuel env s n cfg r hs hn hcfg hnode labels ls' hrun hlen
+
+theorem ___cds_wfs_pop_all_converse (fuel : Nat) (env : Env) (s : Nat) (cfg : Int) (ls : LState)
+    (hs : env.vars "u_stack" = some (.ptr (.obj s)))
+    (hcfg : env.priv (.glob "CONFIG_RCU_EMIT_LEGACY_MB") = some (.int cfg))
+    (hpc : ls.pc = .idle) (labels : List LLabel)
+    (hlab : labels = [] ∨ ∃ old, labels = [.popAll old]) :
+    ∃ inp out, (∀ v ∈ inp, (dec v).isSome) ∧ exec fuel Gen.Src.«___cds_wfs_pop_all» env inp = .ok out ∧
+      labels <+: out.events.flatMap (absEv .popAll s) ∧ (lrun ls labels).isSome :=
+  pop_all_converse fuel env s cfg ls hs hcfg hpc labels hlab
+
+theorem _cds_wfs_empty_converse (fuel : Nat) (env : Env) (s : Nat) (ls : LState)
+    (hs : env.vars "u_stack" = some (.ptr (.obj s)))
+    (hpc : ls.pc = .idle) (labels : List LLabel)
+    (hlab : labels = [] ∨ ∃ h, labels = [.empty h]) :
+    ∃ inp out, (∀ v ∈ inp, (dec v).isSome) ∧ exec fuel Gen.Src.«_cds_wfs_empty» env inp = .ok out ∧
+      labels <+: out.events.flatMap (absEv .empty s) ∧ (lrun ls labels).isSome :=
+  empty_converse fuel env s ls hs hpc labels hlab
+
+/-- the hypotheses of `_cds_wfs_push_converse` are satisfiable by the full two-label path -/
+example : lrun ⟨.pushX 7, .void⟩ [.pushX 7 9, .pushSt 7 9] = some ⟨.idle, .flag true⟩ := by decide
+
 end WfsThms
 
 -- ==========================================================================================================
@@ -312,6 +345,117 @@ example : ∃ out, exec 0 Gen.Src.«_cds_lfs_empty» (envOf [("s", .ptr (.obj 0)
   sexec [Gen.Src.«_cds_lfs_empty», Gen.Src.«___cds_lfs_empty_head», envOf, List.lookup]
   decide
 
+-- legacy RCU stack (rculfstack.h), same L2 model
+theorem _cds_lfs_push_rcu_refines (fuel : Nat) (env : Env) (inp : List Val) (s n : Nat) (cfg : Int) (ls : LState)
+    (hs : env.vars "s" = some (.ptr (.obj s))) (hn : env.vars "node" = some (.ptr (.obj n)))
+    (hcfg : env.priv (.glob "CONFIG_RCU_EMIT_LEGACY_MB") = some (.int cfg))
+    (hnode : n ≠ 0) (hpc : ls.pc = .pushSt n 0)
+    (hinp : ∀ v ∈ inp, (dec v).isSome) :
+    ∃ out, exec fuel Gen.Src.«_cds_lfs_push_rcu» env inp = .ok out ∧
+      ∃ ls', lr .push s ls out.events = some ls' ∧ Done out ls' ∧
+        (∀ r, out.ctl = .ret r → ∃ h, out.env.priv (nextLoc n) = some (enc h) ∧ ls'.ret = .flag (h != 0)) :=
+  push_rcu_refines fuel env inp s n cfg ls hs hn hcfg hnode hpc hinp
+
+example : ∃ out, exec 3 Gen.Src.«_cds_lfs_push_rcu»
+      (envOf [("s", .ptr (.obj 0)), ("node", .ptr (.obj 7))] cfgOn) [.ptr (.obj 9), .ptr (.obj 9)] = .ok out ∧
+    out.events.length = 4 ∧ out.ctl = .ret (some (.int 1)) ∧ out.env.priv (nextLoc 7) = some (.ptr (.obj 9)) ∧
+    lr .push 0 ⟨.pushSt 7 0, .void⟩ out.events = some ⟨.idle, .flag true⟩ := by
+  sexec [Gen.Src.«_cds_lfs_push_rcu», envOf, cfgOn, List.lookup, iterate, nextLoc]
+  decide
+
+theorem _cds_lfs_pop_rcu_refines (fuel : Nat) (env : Env) (inp : List Val) (s : Nat) (cfg : Int) (ls : LState)
+    (hs : env.vars "s" = some (.ptr (.obj s)))
+    (hcfg : env.priv (.glob "CONFIG_RCU_EMIT_LEGACY_MB") = some (.int cfg))
+    (hpc : ls.pc = .popLd) (hinp : ∀ v ∈ inp, (dec v).isSome) :
+    ∃ out, exec fuel Gen.Src.«_cds_lfs_pop_rcu» env inp = .ok out ∧
+      ∃ ls', lr .pop s ls out.events = some ls' ∧ Done out ls' :=
+  pop_rcu_refines fuel env inp s cfg ls hs hcfg hpc hinp
+
+example : ∃ out, exec 3 Gen.Src.«_cds_lfs_pop_rcu» (envOf [("s", .ptr (.obj 0))] cfgOff)
+      [.ptr (.obj 7), .ptr (.obj 9), .ptr (.obj 8), .ptr (.obj 8), .ptr (.obj 7), .ptr (.obj 8)] = .ok out ∧
+    out.events.length = 6 ∧ out.ctl = .ret (some (.ptr (.obj 8))) ∧
+    lr .pop 0 ⟨.popLd, .void⟩ out.events = some ⟨.idle, .node 8⟩ := by
+  sexec [Gen.Src.«_cds_lfs_pop_rcu», envOf, cfgOff, List.lookup, iterate]
+  decide
+
+-- converse direction
+theorem ___cds_lfs_pop_all_converse (fuel : Nat) (env : Env) (s : Nat) (cfg : Int) (ls : LState)
+    (hs : env.vars "u_s" = some (.ptr (.obj s)))
+    (hcfg : env.priv (.glob "CONFIG_RCU_EMIT_LEGACY_MB") = some (.int cfg))
+    (hpc : ls.pc = .idle) (labels : List LLabel)
+    (hlab : labels = [] ∨ ∃ old, labels = [.popAll old]) :
+    ∃ inp out, (∀ v ∈ inp, (dec v).isSome) ∧ exec fuel Gen.Src.«___cds_lfs_pop_all» env inp = .ok out ∧
+      labels <+: out.events.flatMap (absEv .popAll s) ∧ (lrun ls labels).isSome :=
+  pop_all_converse fuel env s cfg ls hs hcfg hpc labels hlab
+
+theorem _cds_lfs_empty_converse (fuel : Nat) (env : Env) (s : Nat) (ls : LState)
+    (hs : env.vars "s" = some (.ptr (.obj s)))
+    (hpc : ls.pc = .idle) (labels : List LLabel)
+    (hlab : labels = [] ∨ ∃ h, labels = [.empty h]) :
+    ∃ inp out, (∀ v ∈ inp, (dec v).isSome) ∧ exec fuel Gen.Src.«_cds_lfs_empty» env inp = .ok out ∧
+      labels <+: out.events.flatMap (absEv .empty s) ∧ (lrun ls labels).isSome :=
+  empty_converse fuel env s ls hs hpc labels hlab
+
 end LfsThms
+
+-- ==========================================================================================================
+-- legacy wait-free queue cds_wfq (wfqueue.h): _cds_wfq_enqueue against `Wfq`
+-- ==========================================================================================================
+section WfqThms
+open WfqL WfqR
+
+theorem wfq_proj_step (s s' : Wfq.State) (t : Nat) (L : Wfq.Label)
+    (hL : ∃ l0, toL2 t l0 = some L) (h : Wfq.step s L = some s') :
+    ∃ l, toL2 t l = some L ∧ Obs s t l ∧ Guard s t l ∧ lstep (proj s t) l = some (proj s' t) :=
+  proj_step s s' t L hL h
+
+theorem wfq_lift_step (s : Wfq.State) (t : Nat) (l : LLabel) (L : Wfq.Label) (ls' : LState)
+    (hL : toL2 t l = some L) (ho : Obs s t l) (hg : Guard s t l) (h : lstep (proj s t) l = some ls') :
+    ∃ s', Wfq.step s L = some s' ∧ proj s' t = ls' :=
+  lift_step s t l L ls' hL ho hg h
+
+theorem wfq_frame (s s' : Wfq.State) (t : Nat) (L : Wfq.Label)
+    (ht : L.tid ≠ t) (h : Wfq.step s L = some s') : proj s' t = proj s t :=
+  frame s s' t L ht h
+
+theorem wfq_frame_own (s s' : Wfq.State) (t : Nat) (L : Wfq.Label)
+    (hL : L = .flush t ∨ L = .acquire t ∨ L = .release t)
+    (h : Wfq.step s L = some s') : proj s' t = proj s t :=
+  frame_own s s' t L hL h
+
+theorem _cds_wfq_enqueue_refines (fuel : Nat) (env : Env) (inp : List Val) (q n : Nat) (ln : Loc) (cfg : Int)
+    (ls : LState)
+    (hq : env.vars "q" = some (.ptr (.obj q))) (hn : env.vars "node" = some (.ptr ln))
+    (hln : decNode q ln = some n)
+    (hcfg : env.priv (.glob "CONFIG_RCU_EMIT_LEGACY_MB") = some (.int cfg))
+    (hpc : ls = if n = Wfq.D then .redo else .idle)
+    (hinp : ∀ v ∈ inp, (decTail q v).isSome) :
+    ∃ out, exec fuel Gen.Src.«_cds_wfq_enqueue» env inp = .ok out ∧
+      ∃ ls', lr q ls out.events = some ls' ∧
+        (out.ctl = .blocked ∨ (out.ctl = .normal ∧ ls' = if n = Wfq.D then .q1 else .done .unit)) :=
+  enqueue_refines fuel env inp q n ln cfg ls hq hn hln hcfg hpc hinp
+
+/-- enqueue of node 7 on the empty queue 0 (tail = `&dummy.next`), legacy barrier configured: mb, xchg, store -/
+example : ∃ out, exec 0 Gen.Src.«_cds_wfq_enqueue»
+      (envOf [("q", .ptr (.obj 0)), ("node", .ptr (.obj 7))] cfgOn)
+      [.ptr (.field (.field (.obj 0) "dummy") "next")] = .ok out ∧
+    out.events = [.fence .mb,
+                  .xchg (.field (.obj 0) "tail") (.ptr (.field (.obj 7) "next"))
+                    (.ptr (.field (.field (.obj 0) "dummy") "next")) 5,
+                  .st (.field (.field (.obj 0) "dummy") "next") (.ptr (.obj 7)) 3] ∧
+    out.ctl = .normal ∧
+    lr 0 .idle out.events = some (.done .unit) := by
+  sexec [Gen.Src.«_cds_wfq_enqueue», envOf, cfgOn, List.lookup]
+  decide
+
+/-- the dummy re-enqueue inside dequeue: from `redo`, back to `q1` -/
+example : ∃ out, exec 0 Gen.Src.«_cds_wfq_enqueue»
+      (envOf [("q", .ptr (.obj 0)), ("node", .ptr (.field (.obj 0) "dummy"))] cfgOff)
+      [.ptr (.field (.obj 7) "next")] = .ok out ∧
+    out.events.length = 2 ∧ lr 0 .redo out.events = some .q1 := by
+  sexec [Gen.Src.«_cds_wfq_enqueue», envOf, cfgOff, List.lookup]
+  decide
+
+end WfqThms
 
 end UrcuVerif.Props.SrcStack
